@@ -80,7 +80,10 @@ Raise(w) == IF "NoExceptionBarrier" \in Dev THEN Exc(w) ELSE Err(w)
 Neg(a) == IF a.ex THEN Qf(-a.n, a.d, a.fx) ELSE Ix(Flip(a.sg), a.mag)
 AbsV(a) == IF a.ex THEN Qf(AbsI(a.n), a.d, a.fx) ELSE Ix(IF a.sg = "n" THEN "p" ELSE a.sg, a.mag)
 Truth(a) == IF a.ex THEN (IF a.n # 0 THEN "t" ELSE IF a.fx THEN "f" ELSE "u")
-            ELSE IF a.sg \in {"p", "n"} THEN "t" ELSE "u"
+            \* an inexact value is only known roughly (values beyond the exact bound are labelled
+            \* "mid" whatever their true magnitude): it may underflow to 0.0 in the floating-point
+            \* evaluation, so its truth value is not decided by the model (numeric accuracy)
+            ELSE "u"
 NotV(a) == CASE Truth(a) = "t" -> Zero [] Truth(a) = "f" -> One [] OTHER -> Unknown
 
 FloorI(n, d) == n \div d
